@@ -35,9 +35,21 @@
   * `receive_empty_payload_intended`   the intended variant hands on the empty payload (None)
   ASF
   * `asf_ping_format`        `ping()` sends exactly the ASF presence ping of the figure
-  * `pong_accepts_iff`       exactly which datagrams `_receive_asf_msg(AsfPong)` accepts
-  * `pong_rejects_non_pong`  anything that has not the presence-pong format is rejected
-  * `pong_spec_accepted`     a pong laid out as in the ASF figure (interactions 0) is accepted
+  * `parsePong_iff`          the oracle `Spec.Lan.parsePong` answers `some p` exactly on the datagram of a
+                             well-formed pong `p` (Spec.Lan.Pong / WellFormed / pongDatagram are written from
+                             ASF 2.0 §3.2.4.3 and IPMI v2.0 table 13-6)
+  * `wellformed_pong_accepted`   EVERY well-formed pong - any tag, OEM number, supported-entities and
+                             supported-interactions byte - is accepted by the intended
+                             `_receive_asf_msg(AsfPong)` and unwrapped to exactly its fields
+  * `pong_interactions_asShipped_counterexample`   as shipped, the pong of a BMC that advertises the RMCP
+                             security extensions (interactions 80h) is refused with DecodingError
+  * `wellformed_pong_asShipped_iff`   as shipped a well-formed pong is accepted iff that byte is 0
+  * `receivePongV_variants_agree`     the two variants differ on nothing else
+  * `ping_pong_exchange`     `ping()` as a whole: figure ping out, any well-formed pong echoing its tag in
+  * `pong_accepts_iff`       exactly which datagrams `_receive_asf_msg(AsfPong)` accepts (either variant),
+                             and the attributes of the object
+  * `pong_rejects_non_pong`  anything that has not the presence-pong format is rejected (either variant)
+  * `pong_spec_accepted`     the byte-list form used by the reference BMC of C06, any interactions byte
   tie
   * `gen_unpack_layout_known`   the slices / indices `IpmiMsg.unpack` uses today are the ones the
                              hand-written `ipmiUnpack` mirrors
@@ -236,37 +248,131 @@ theorem asf_ping_format (rs : Nat) (h : rs < 256) :
     pingDatagram rs = .ok [6, 0, rs, 6, 0, 0, 0x11, 0xbe, 0x80, 0, 0, 0] := by
   simpa [pingBytes] using pingDatagram_eq rs h
 
-theorem pong_accepts_iff (d : List Nat) :
-    receivePong d = .ok () ↔
+/-- Exactly which datagrams `_receive_asf_msg(AsfPong)` accepts (either variant of `check_data`), and
+what the `AsfPong` object then holds. -/
+theorem pong_accepts_iff (v : PongCheck) (d : List Nat) (f : PongFields) :
+    receivePongV v d = .ok f ↔
       ∃ p, parseAsf d = some p ∧ p.ver = 6 ∧ p.cls = 6 ∧ p.type = 0x40 ∧ p.dlen = 16 ∧
-        p.data.length = 16 ∧ pongContentOk p.data := by
+        p.data.length = 16 ∧ pongContentOk v p.data ∧
+        f = ⟨p.iana, p.type, p.tag, beVal (p.data.take 4), beVal ((p.data.drop 4).take 4),
+              (p.data.drop 8).headD 0, (p.data.drop 9).headD 0⟩ := by
   rcases d with _ | ⟨a0, _ | ⟨a1, _ | ⟨a2, _ | ⟨a3, sdu⟩⟩⟩⟩
   case cons.cons.cons.cons =>
-    have hr : receivePong (a0 :: a1 :: a2 :: a3 :: sdu) =
-        if a0 ≠ 6 then .decodingError else if a3 ≠ 6 then .decodingError else pongUnpack sdu := by
-      simp only [receivePong, rmcpUnpack_cons]
-      by_cases h0 : a0 = 6 <;> by_cases h3 : a3 = 6 <;> simp [h0, h3, Outcome.bind, classAsf]
-    rw [hr]
+    rw [receivePongV_cons]
     rcases sdu with _ | ⟨n3, _ | ⟨n2, _ | ⟨n1, _ | ⟨n0, _ | ⟨ty, _ | ⟨tag, _ | ⟨r, _ | ⟨dl, data⟩⟩⟩⟩⟩⟩⟩⟩
     case cons.cons.cons.cons.cons.cons.cons.cons =>
+      have hi : beVal [n3, n2, n1, n0] = u32le n0 n1 n2 n3 := by
+        simp [beVal, leVal, u32le]; omega
       by_cases h0 : a0 = 6 <;> by_cases h3 : a3 = 6 <;>
-        simp [h0, h3, pongUnpack_cons, parseAsf]
+        simp [h0, h3, pongUnpackV_cons, parseAsf, pongFieldsOf, hi]
     all_goals
       (by_cases h0 : a0 = 6 <;> by_cases h3 : a3 = 6 <;>
-        simp [h0, h3, parseAsf, pongUnpack_short])
-  all_goals (simp [parseAsf, receivePong, rmcpUnpack_short, Outcome.bind])
+        simp [h0, h3, parseAsf, pongUnpackV_short])
+  all_goals (simp [parseAsf, receivePongV, rmcpUnpack_short, Outcome.bind])
 
-theorem pong_rejects_non_pong (d : List Nat) (h : isPongFormat d = false) : receivePong d ≠ .ok () := by
+theorem pong_rejects_non_pong (v : PongCheck) (d : List Nat) (h : isPongFormat d = false) (f : PongFields) :
+    receivePongV v d ≠ .ok f := by
   intro hok
-  obtain ⟨p, hp, h1, h2, h3, h4, h5, _⟩ := (pong_accepts_iff d).mp hok
+  obtain ⟨p, hp, h1, h2, h3, h4, h5, _⟩ := (pong_accepts_iff v d f).mp hok
   simp [isPongFormat, hp, h1, h2, h3, h4, h5] at h
 
-theorem pong_spec_accepted (tag i3 i2 i1 i0 o3 o2 o1 o0 entities : Nat)
-    (hoem : ¬ (beVal [i3, i2, i1, i0] = 4542 ∧ beVal [o3, o2, o1, o0] ≠ 0)) :
-    receivePong (pongBytes tag [i3, i2, i1, i0] [o3, o2, o1, o0] entities 0) = .ok () := by
+/-- the oracle `parsePong` says `some p` exactly for the datagram of a well-formed pong `p` -/
+theorem parsePong_iff (d : List Nat) (p : Pong) :
+    parsePong d = some p ↔ p.WellFormed ∧ d = pongDatagram p := by
+  constructor
+  · intro h
+    unfold parsePong at h
+    split at h
+    · dsimp only at h
+      split at h
+      · rename_i hw
+        cases h
+        exact hw
+      · cases h
+    · cases h
+  · rintro ⟨hw, rfl⟩
+    obtain ⟨tag, oi, od, en, ia⟩ := p
+    obtain ⟨h1, h2, h3, h4, h5, h6⟩ := hw
+    simp only at h1 h2 h3 h4 h5 h6
+    have e1 := u32le_be32 oi h2
+    have e2 := u32le_be32 od h3
+    simp only [parsePong, pongDatagram, be32, List.cons_append, List.nil_append, e1, e2]
+    simpa [Pong.WellFormed, h1, h2, h3, h4, h5] using h6
+
+/-- THE CLAUSE "presence pong messages follow the ASF format", receiving side: every well-formed
+pong - any message tag, any OEM number with its OEM-defined field, EVERY value of the Supported
+Entities and Supported Interactions bytes - is accepted by the intended `_receive_asf_msg(AsfPong)`
+and unwrapped to exactly its fields. -/
+theorem wellformed_pong_accepted (p : Pong) (hw : p.WellFormed) :
+    receivePongV .intended (pongDatagram p) =
+      .ok ⟨4542, 0x40, p.tag, p.oemIana, p.oemDefined, p.entities, p.interactions⟩ := by
+  obtain ⟨_, h2, h3, _, _, h6⟩ := hw
+  obtain ⟨f1, f2, f3, f4, f5⟩ := pongData16_fields p h2 h3
   rw [pong_accepts_iff]
-  refine ⟨_, rfl, rfl, rfl, rfl, rfl, rfl, ?_⟩
-  simpa [pongContentOk] using hoem
+  refine ⟨_, parseAsf_pongDatagram p, rfl, rfl, rfl, rfl, f1, ⟨?_, fun h => by cases h⟩, ?_⟩
+  · rw [f2, f3]
+    exact fun ⟨ha, hb⟩ => hb (h6 ha)
+  · simp only [f2, f3, f4, f5]
+
+/-- What the shipped `check_data` does with the same pongs: it accepts a well-formed pong if and only
+if its Supported Interactions byte is 0 - 255 of the 256 values are refused. -/
+theorem wellformed_pong_asShipped_iff (p : Pong) (hw : p.WellFormed) :
+    (∃ f, receivePongV .asShipped (pongDatagram p) = .ok f) ↔ p.interactions = 0 := by
+  obtain ⟨_, h2, h3, _, _, h6⟩ := hw
+  obtain ⟨f1, f2, f3, f4, f5⟩ := pongData16_fields p h2 h3
+  constructor
+  · rintro ⟨f, hf⟩
+    obtain ⟨q, hq, _, _, _, _, _, hc, _⟩ := (pong_accepts_iff _ _ f).mp hf
+    rw [parseAsf_pongDatagram] at hq
+    cases hq
+    have := hc.2 rfl
+    rwa [f5] at this
+  · intro hia
+    refine ⟨_, (pong_accepts_iff _ _ _).mpr ⟨_, parseAsf_pongDatagram p, rfl, rfl, rfl, rfl, f1, ⟨?_, fun _ => ?_⟩, rfl⟩⟩
+    · rw [f2, f3]
+      exact fun ⟨ha, hb⟩ => hb (h6 ha)
+    · rw [f5]; exact hia
+
+/-- the pong of a BMC that supports IPMI, ASF 1.0 and the RMCP security extensions of ASF 2.0 -/
+def secExtPong : Pong := ⟨0, 4542, 0, 0x81, 0x80⟩
+
+/-- AS SHIPPED the clause fails: this well-formed pong - the answer to `ping()`'s own ping, tag 0 - is
+refused with DecodingError, so `establish_session`, which starts with `ping()`, cannot log into such
+a BMC.  (`06 00 ff 06 | 00 00 11 be 40 00 00 10 | 00 00 11 be 00 00 00 00 81 80 00 00 00 00 00 00`) -/
+theorem pong_interactions_asShipped_counterexample :
+    secExtPong.WellFormed ∧ parsePong (pongDatagram secExtPong) = some secExtPong ∧
+    receivePongV .asShipped (pongDatagram secExtPong) = .decodingError ∧
+    receivePongV .intended (pongDatagram secExtPong) = .ok ⟨4542, 0x40, 0, 4542, 0, 0x81, 0x80⟩ := by
+  decide
+
+/-- the two variants differ on nothing else: a datagram whose byte 21 (Supported Interactions) is 0 or
+absent is treated alike -/
+theorem receivePongV_variants_agree (d : List Nat) (h : (d.drop 21).headD 0 = 0) :
+    receivePongV .asShipped d = receivePongV .intended d := by
+  rcases d with _ | ⟨a0, _ | ⟨a1, _ | ⟨a2, _ | ⟨a3, sdu⟩⟩⟩⟩
+  case cons.cons.cons.cons =>
+    rw [receivePongV_cons, receivePongV_cons]
+    rcases sdu with _ | ⟨n3, _ | ⟨n2, _ | ⟨n1, _ | ⟨n0, _ | ⟨ty, _ | ⟨tag, _ | ⟨r, _ | ⟨dl, data⟩⟩⟩⟩⟩⟩⟩⟩
+    case cons.cons.cons.cons.cons.cons.cons.cons =>
+      rw [pongUnpackV_agree _ _ _ _ _ _ _ _ _ (by simpa using h)]
+    all_goals simp [pongUnpackV_short]
+  all_goals (simp [receivePongV, rmcpUnpack_short, Outcome.bind])
+
+/-- `Rmcp.ping()` as a whole, intended: the ping of the figure goes out and whatever well-formed
+pong echoes its tag is accepted -/
+theorem ping_pong_exchange (rs : Nat) (hrs : rs < 256) (p : Pong) (hw : p.WellFormed) (ht : p.tag = 0) :
+    pingDatagram rs = .ok (pingBytes rs p.tag) ∧ receivePong (pongDatagram p) = .ok () := by
+  refine ⟨by rw [ht]; exact pingDatagram_eq rs hrs, ?_⟩
+  rw [receivePong_ok_iff]
+  exact ⟨_, wellformed_pong_accepted p hw⟩
+
+/-- the older form, on the byte lists the reference BMC of C06 uses: any interactions byte -/
+theorem pong_spec_accepted (tag i3 i2 i1 i0 o3 o2 o1 o0 entities interactions : Nat)
+    (hoem : ¬ (beVal [i3, i2, i1, i0] = 4542 ∧ beVal [o3, o2, o1, o0] ≠ 0)) :
+    receivePong (pongBytes tag [i3, i2, i1, i0] [o3, o2, o1, o0] entities interactions) = .ok () := by
+  rw [receivePong_ok_iff]
+  refine ⟨_, (pong_accepts_iff _ _ _).mpr ⟨_, rfl, rfl, rfl, rfl, rfl, rfl, ?_, rfl⟩⟩
+  exact ⟨by simpa using hoem, fun h => by cases h⟩
 
 /-! ### tie to the generated tables -/
 
@@ -296,5 +402,8 @@ example : receiveIpmi .asShipped false [6, 0, 255, 7, 0, 1, 0, 0, 0, 2, 0, 0, 0,
 example : receiveIpmi .asShipped true [6, 0, 255, 7, 0, 1, 0, 0, 0, 2, 0, 0, 0, 3, 0xaa, 0xbb] =
     .ok (some [0xaa, 0xbb]) := by decide
 example : receivePong (pongBytes 0 [0, 0, 0x11, 0xbe] [0, 0, 0, 0] 0x81 0) = .ok () := by decide
+example : (⟨7, 343, 0xdeadbeef, 0x01, 0xa0⟩ : Pong).WellFormed := by decide
+example : parsePong (pongDatagram ⟨7, 343, 0xdeadbeef, 0x01, 0xa0⟩) = some ⟨7, 343, 0xdeadbeef, 0x01, 0xa0⟩ := by decide
+example : parsePong (pongDatagram ⟨0, 4542, 5, 0x81, 0⟩) = none := by decide
 
 end PyIpmi.Props.C05
